@@ -96,16 +96,21 @@ def check_table(res, repo):
                 return True
         return False
 
+    def _union_expr(v):
+        return isinstance(v, ast.BinOp) and isinstance(v.op, ast.BitOr) and {ast.unparse(v.left), ast.unparse(v.right)} == {"PATTERN_MAP", "MOVEMENT_MAP"}
+
     def is_union(name):
+        if name == "<union>":
+            return True
         return any(isinstance(v, ast.BinOp) and isinstance(v.op, ast.BitOr) and {ast.unparse(v.left), ast.unparse(v.right)} == {"PATTERN_MAP", "MOVEMENT_MAP"} for v in asg.get(name, []))
 
     # lookups: M[k] or M.get(k)
     lookups = []
     for n in ast.walk(bi.node):
-        if isinstance(n, ast.Subscript) and isinstance(n.value, ast.Name) and isinstance(n.slice, ast.Name):
-            lookups.append((n.value.id, n.slice.id))
-        elif isinstance(n, ast.Call) and call_name(n) == "get" and isinstance(n.func, ast.Attribute) and isinstance(n.func.value, ast.Name) and n.args and isinstance(n.args[0], ast.Name):
-            lookups.append((n.func.value.id, n.args[0].id))
+        if isinstance(n, ast.Subscript) and isinstance(n.slice, ast.Name) and (isinstance(n.value, ast.Name) or _union_expr(n.value)):
+            lookups.append((n.value.id if isinstance(n.value, ast.Name) else "<union>", n.slice.id))
+        elif isinstance(n, ast.Call) and call_name(n) == "get" and isinstance(n.func, ast.Attribute) and n.args and isinstance(n.args[0], ast.Name) and (isinstance(n.func.value, ast.Name) or _union_expr(n.func.value)):
+            lookups.append((n.func.value.id if isinstance(n.func.value, ast.Name) else "<union>", n.args[0].id))
     found_ind = any(m == "INDICATOR_MAP" and popped(k, "indicator") for m, k in lookups)
     found_an = any(is_union(m) and popped(k, "analysis") for m, k in lookups)
     for ok_, need in ((found_ind, 'INDICATOR_MAP[<popped "indicator" name>]'), (found_an, '(PATTERN_MAP | MOVEMENT_MAP)[<popped "analysis" name>]')):
